@@ -47,12 +47,16 @@ func parseDef(def string) *query.Query {
 // SubQueryDefinitions gives the meaning of the tag definitions with a sub-query that scenarios use: the
 // main stream s is a member iff SOME visible stream x satisfies the function (xHas tells whether x is a
 // member of a tag according to the truth computed so far).
-var SubQueryDefinitions = map[string]func(s, x *ref.Rec, xHas func(tag string) bool) bool{
+var SubQueryDefinitions = map[string]func(s, x *ref.Rec, sHas, xHas func(tag string) bool) bool{
+	// the same tag named in the main query and from inside a sub-query: a member of tag/b that follows a member of tag/b
+	"tag:b @p:tag:b id:@p:id@+1": func(s, x *ref.Rec, sHas, xHas func(string) bool) bool {
+		return sHas("tag/b") && xHas("tag/b") && s.ID == x.ID+1
+	},
 	// a mark list used inside a sub-query: the stream that follows a marked one
-	"@sub:mark:m id:@sub:id@+1": func(s, x *ref.Rec, xHas func(string) bool) bool {
+	"@sub:mark:m id:@sub:id@+1": func(s, x *ref.Rec, sHas, xHas func(string) bool) bool {
 		return xHas("mark/m") && s.ID == x.ID+1
 	},
-	"@sub:tag:b sport:@sub:sport@": func(s, x *ref.Rec, xHas func(string) bool) bool {
+	"@sub:tag:b sport:@sub:sport@": func(s, x *ref.Rec, sHas, xHas func(string) bool) bool {
 		return xHas("tag/b") && s.SPort == x.SPort
 	},
 }
@@ -121,7 +125,7 @@ func TagTruth(s *Snapshot) (map[string]map[uint64]bool, map[uint64]*ref.Rec, err
 				for id, r := range recs {
 					m[id] = false
 					for xid, x := range recs {
-						if sq(r, x, func(tag string) bool { return truth[tag][xid] }) {
+						if sq(r, x, func(tag string) bool { return truth[tag][id] }, func(tag string) bool { return truth[tag][xid] }) {
 							m[id] = true
 							break
 						}
